@@ -408,7 +408,7 @@ func c20Run(c *core.Ctx, raw json.RawMessage) {
 		}
 	}
 	// label inter-node connections by the mux header byte the dialer sends first
-	s.Net.Tap = func(from, to *simnetConn, data []byte) {
+	s.Net.Tap = func(from, to *c20SimnetConn, data []byte) {
 		if from.IsDialer() && from.Tag == "" && len(data) > 0 {
 			from.Tag = fmt.Sprintf("mux%d", data[0])
 			to.Tag = from.Tag
@@ -851,7 +851,7 @@ func c20Run(c *core.Ctx, raw json.RawMessage) {
 			c.Log.Add("%d fault heal", s.StepN)
 		case "reset":
 			seen := map[uint64]bool{}
-			var list []*simnetConn
+			var list []*c20SimnetConn
 			for i := 1; i <= sc.Nodes; i++ {
 				for _, cn := range s.Net.ConnsOf(s.Nodes[i].HostName) {
 					if !seen[cn.ID()] {
@@ -1010,7 +1010,7 @@ func c20Run(c *core.Ctx, raw json.RawMessage) {
 	c.Sig(fmt.Sprintf("%d/%d/%d/%d", nOK, nRej, nErr, len(counts)))
 }
 
-type simnetConn = simnet.Conn
+type c20SimnetConn = simnet.Conn
 
 // c20CheckResults compares a 200/no-error response with the results the
 // leader must have produced for exactly this request.
